@@ -51,6 +51,17 @@ def check(case, mode):
     red2 = must_not_raise('reduce-twice', red.reduce)
     if watch.fired:
         X.compare_ops(op, red2, den, case['probe'], 'reduce-twice-changes-value')
+    # sequences of operations: the transpose of the reduced operator, and the reduction of the transposed expression,
+    # denote the transposed map (transposes of iterative inverses are unsupported by the library and skipped)
+    if 'cg' not in den.flags:
+        denT = ops.Den(den.M.T.copy(), den.A.T.copy(), den.out_S, den.in_S, den.flags, den.nf)
+        redT = must_not_raise('transpose-of-reduced', lambda: red.T)
+        X.compare_with_den(redT, denT, case['probe'], 'transpose-of-reduced-value', max_basis=6, factor=2.0)
+        watch.reset()
+        Tred = must_not_raise('reduce-of-transpose', lambda: op.T.reduce())
+        X.compare_with_den(Tred, denT, case['probe'], 'reduce-of-transpose-value', max_basis=6, factor=2.0)
+        for k_ in watch.fired:
+            fired[k_] = fired.get(k_, 0) + watch.fired[k_]
     classes = ['rule:' + k for k in fired]
     kinds = X.kinds_in(case['expr'], defs)
     classes += ['kind:' + k for k in kinds]
